@@ -7,6 +7,7 @@ import PyIkev2.Model.Codec
 import PyIkev2.Model.Wire
 import PyIkev2.Model.Toy
 import PyIkev2.Model.NegotiateCmd
+import PyIkev2.Model.SelectorsCmd
 
 open PyIkev2 PyIkev2.Impl
 
@@ -48,7 +49,7 @@ def step (line : String) : String :=
   match (line.trimAscii.toString.splitOn " ").filter (· ≠ "") with
   | [] => "bad-op"
   | cmd :: args =>
-    match (codecCmd cmd args).orElse (fun _ => NegotiateCmd.cmd cmd args) with
+    match ((codecCmd cmd args).orElse (fun _ => NegotiateCmd.cmd cmd args)).orElse (fun _ => SelectorsCmd.cmd cmd args) with
     | some out => out
     | none => "bad-op"
 
